@@ -31,6 +31,13 @@ def to_set_(source: Observable[_T]) -> Observable[set[_T]]:
     ) -> abc.DisposableBase:
         s: set[_T] = set()
 
+        def on_next(x: _T) -> None:
+            try:
+                s.add(x)
+            except Exception as ex:  # pylint: disable=broad-except
+                observer.on_error(ex)
+                return
+
         def on_completed() -> None:
             nonlocal s
             observer.on_next(s)
@@ -38,7 +45,7 @@ def to_set_(source: Observable[_T]) -> Observable[set[_T]]:
             observer.on_completed()
 
         return source.subscribe(
-            s.add, observer.on_error, on_completed, scheduler=scheduler
+            on_next, observer.on_error, on_completed, scheduler=scheduler
         )
 
     return Observable(subscribe)
